@@ -357,9 +357,116 @@ type Storm struct {
 	Iters int  `json:"iters"`
 	K     int  `json:"k"`
 	Fail  bool `json:"fail"`
+	// What = "" : the goroutines close one scope.  "scoped" / "transient" / "singleton" / "mixed": they RESOLVE in one
+	// fresh scope instead (first resolutions of a scoped service, of a transient, of a singleton, or a mix of the
+	// scoped A and its dependency B): summary event rstorm
+	What string `json:"what,omitempty"`
 }
 
 var stormCloses sync.Map // instance id -> *int64
+
+// resolveStorm: Iters times, K goroutines leave a spin barrier together and resolve in one FRESH scope - the first
+// resolutions of a scoped service (what=scoped: the scoped A, which depends on the scoped B; what=mixed: odd goroutines
+// ask for B directly), of the keyed transient (what=transient) or of the singleton (what=singleton).  No scheduler, no
+// per-event recording inside the window; one summary event per iteration: how many distinct instances the callers got
+// per requested service, how often the constructors of the scoped A, the scoped B, the transient and the singleton
+// ran during the iteration, failures, panics, and how often each instance was closed by the Close that follows.
+func resolveStorm(sc *CScenario, p godi.Provider) {
+	k := sc.Storm.K
+	what := sc.Storm.What
+	regs := []string{"r2", "r3", "r4", "r1"}
+	for it := 0; it < sc.Storm.Iters; it++ {
+		stormCloses = sync.Map{}
+		sco, err := p.CreateScope(context.Background())
+		if err != nil {
+			break
+		}
+		R.mu.Lock()
+		before := map[string]int{}
+		for _, r := range regs {
+			before[r] = R.inv[r]
+		}
+		R.mu.Unlock()
+		res := make([]any, k)
+		asked := make([]string, k)
+		var ready, errs, panics int64
+		var wg sync.WaitGroup
+		for g := 0; g < k; g++ {
+			wg.Add(1)
+			go func(g int) {
+				defer wg.Done()
+				defer func() {
+					if r := recover(); r != nil {
+						atomic.AddInt64(&panics, 1)
+					}
+				}()
+				atomic.AddInt64(&ready, 1)
+				for atomic.LoadInt64(&ready) < int64(k) { // spin barrier: leave together
+				}
+				var v any
+				var err error
+				switch {
+				case what == "transient":
+					asked[g] = "T"
+					v, err = sco.GetKeyed(typeByName("S0"), "k")
+				case what == "singleton":
+					asked[g] = "S"
+					v, err = sco.Get(typeByName("S0"))
+				case what == "mixed" && g%2 == 1:
+					asked[g] = "B"
+					v, err = sco.Get(typeByName("S2"))
+				default:
+					asked[g] = "A"
+					v, err = sco.Get(typeByName("S1"))
+				}
+				if err != nil || v == nil {
+					atomic.AddInt64(&errs, 1)
+					return
+				}
+				res[g] = v
+			}(g)
+		}
+		wg.Wait()
+		distinct := map[string]int{}
+		seen := map[any]bool{}
+		for g := 0; g < k; g++ {
+			if res[g] != nil && !seen[res[g]] {
+				seen[res[g]] = true
+				distinct[asked[g]]++
+			}
+		}
+		R.mu.Lock()
+		runs := []int{}
+		for _, r := range regs {
+			runs = append(runs, R.inv[r]-before[r])
+		}
+		R.mu.Unlock()
+		cerr := 0
+		func() {
+			defer func() {
+				if r := recover(); r != nil {
+					atomic.AddInt64(&panics, 1)
+				}
+			}()
+			if err := sco.Close(); err != nil {
+				cerr = 1
+			}
+		}()
+		closes := []int{}
+		stormCloses.Range(func(_, v any) bool {
+			closes = append(closes, int(atomic.LoadInt64(v.(*int64))))
+			return true
+		})
+		askedN := map[string]int{}
+		for g := 0; g < k; g++ {
+			askedN[asked[g]]++
+		}
+		da := []int{distinct["A"], distinct["B"], distinct["T"], distinct["S"]}
+		an := []int{askedN["A"], askedN["B"], askedN["T"], askedN["S"]}
+		emit(M{"ev": "rstorm", "k": k, "what": what, "asked": an, "distinct": da, "runs": runs, "errs": int(errs), "panics": int(panics),
+			"closes": closes, "closeerr": cerr})
+	}
+}
 
 func stormScenario(sc *CScenario, run int) {
 	runNo = run
@@ -392,6 +499,15 @@ func stormScenario(sc *CScenario, run int) {
 		os.Exit(4)
 	}
 	k := sc.Storm.K
+	if sc.Storm.What != "" {
+		resolveStorm(sc, p)
+		func() {
+			defer func() { recover() }()
+			p.Close()
+		}()
+		R.storm = false
+		return
+	}
 	for it := 0; it < sc.Storm.Iters; it++ {
 		stormCloses = sync.Map{}
 		sco, err := p.CreateScope(context.Background())
